@@ -53,6 +53,7 @@ type Contract struct {
 	rawMods  []rawMod
 	Use      map[string]map[string]bool  // callee → the callee's ensures clauses assumed at call sites (default: all)
 	Asserts  map[string][]*Clause        // cut points: "before <callee>#<n>" → clauses checked, then assumed
+	ExitAsserts []*Clause             // checked at every return site; may name locals; not exported to callers
 	Inline   map[string]bool             // callees executed from their bodies instead of their contracts
 	Witness  map[string]map[string]SExpr // clause name → existential variable → witness term (tried at return sites)
 }
@@ -564,6 +565,13 @@ func (e *Engine) parseContracts() {
 				continue
 			}
 			cur.Assumes = append(cur.Assumes, mkClause(l, rest, fmt.Sprintf("assume%d", len(cur.Assumes))))
+		case "exit-assert":
+			// exit-assert name: expr — holds at every return site; may mention locals
+			if cur == nil {
+				perr(l, "exit-assert outside a contract")
+				continue
+			}
+			cur.ExitAsserts = append(cur.ExitAsserts, mkClauses(l, rest, fmt.Sprintf("exit%d", len(cur.ExitAsserts)))...)
 		case "ensures":
 			if cur == nil {
 				perr(l, "ensures outside a contract")
